@@ -60,6 +60,9 @@ class H5Group:
 
     def create_link(self, target, name):
         self._create_h5obj()
+        if target._h5group.group.file != self.group.file:
+            # check first: a link HDF5 will refuse must not cost the old one
+            raise RuntimeError("Cannot link to an object of another file")
         if name in self.group:
             del self.group[name]
         self.group[name] = target._h5group.group
